@@ -232,6 +232,49 @@ impl State {
 #[verifier::external_body]
 pub fn vx_unreachable() -> (r: f64) requires false { unreachable!() }
 
+// ---- C11.8: `Clone for State` (feos-core/src/state/mod.rs): every field is cloned field-wise and the clone's
+// cache has the same contents, so the cache invariant carries over and later insertions go to disjoint maps.
+// The lock is erased (N5): the field is a `Cache`; `Mutex::new(<guard>.clone())` becomes `clone_cache`.
+pub mod cl {
+    use super::*;
+    use std::sync::Arc;
+    #[verifier::external_body] #[verifier::reject_recursive_types(T)] pub struct Array1<T> { _p: core::marker::PhantomData<T> }
+    #[verifier::external_body] #[verifier::reject_recursive_types(T)] pub struct Density<T = f64> { _p: core::marker::PhantomData<T> }
+    #[verifier::external_body] #[verifier::reject_recursive_types(T)] pub struct Moles<T = f64> { _p: core::marker::PhantomData<T> }
+    #[verifier::external_body] pub struct Temperature { _p: () }
+    #[verifier::external_body] pub struct Volume { _p: () }
+    impl Clone for Temperature { #[verifier::external_body] fn clone(&self) -> (r: Self) ensures r == *self { unimplemented!() } }
+    impl Copy for Temperature {}
+    impl Clone for Volume { #[verifier::external_body] fn clone(&self) -> (r: Self) ensures r == *self { unimplemented!() } }
+    impl Copy for Volume {}
+    impl Clone for Density<f64> { #[verifier::external_body] fn clone(&self) -> (r: Self) ensures r == *self { unimplemented!() } }
+    impl Copy for Density<f64> {}
+    impl Clone for Moles<f64> { #[verifier::external_body] fn clone(&self) -> (r: Self) ensures r == *self { unimplemented!() } }
+    impl Copy for Moles<f64> {}
+    impl Clone for Array1<f64> { #[verifier::external_body] fn clone(&self) -> (r: Self) ensures r == *self { unimplemented!() } }
+    impl Clone for Density<Array1<f64>> { #[verifier::external_body] fn clone(&self) -> (r: Self) ensures r == *self { unimplemented!() } }
+    impl Clone for Moles<Array1<f64>> { #[verifier::external_body] fn clone(&self) -> (r: Self) ensures r == *self { unimplemented!() } }
+    impl Cache {
+        /// A3: HashMap::clone preserves contents (and the counters are copied)
+        #[verifier::external_body]
+        pub fn clone_cache(&self) -> (r: Cache) ensures r.map@ == self.map@, r.hit == self.hit, r.miss == self.miss { unimplemented!() }
+    }
+//@item feos-core/src/state/mod.rs struct State derive=NONE retype=cache:Cache
+    impl<E> State<E> {
+//@fn feos-core/src/state/mod.rs State@Clone::clone ret=r name=clone_state
+        ensures
+            r.eos == self.eos, r.temperature == self.temperature, r.volume == self.volume, r.moles == self.moles,
+            r.total_moles == self.total_moles, r.partial_density == self.partial_density, r.density == self.density,
+            r.molefracs == self.molefracs, r.reduced_temperature == self.reduced_temperature,
+            r.reduced_volume == self.reduced_volume, r.reduced_moles == self.reduced_moles,
+            // whatever the clone's cache holds denotes the same derivatives (an empty cache is fine: values are recomputed)
+            inv(self.cache.map@) ==> inv(r.cache.map@),
+//@rewrite? N5 expr Mutex::new(self.cache.lock().unwrap().clone()) => self.cache.clone_cache()
+//@rewrite? N5 expr Mutex::new($..x) => ($x)
+//@end
+    }
+}
+
 // ---- C11.7: history independence.  The transition system whose steps are the five
 // post-conditions above: from any map satisfying `inv`, along an arbitrary finite request
 // sequence, every answer equals tv(key) and `inv` is maintained.
